@@ -59,19 +59,25 @@ func newMPSCQueue[K comparable, V any](size int, wake chan struct{}, closeCh <-c
 
 func (q *mpscQueue[K, V]) enqueue(cmd writeCommand[K, V]) error {
 	for {
+		verifYield(101)
 		pos := q.head.Load()
 		cell := &q.buffer[pos&q.mask]
+		verifYield(102)
 		seq := cell.seq.Load()
 		switch dif := int64(seq) - int64(pos); {
 		case dif == 0:
 			// free for this lap.
+			verifYield(103)
 			if q.head.CompareAndSwap(pos, pos+1) {
+				verifYield(104)
 				cell.cmd = cmd
+				verifYield(105)
 				cell.seq.Store(pos + 1) // publish (release) for the consumer
 				// Wake only when this publish fills the consumer's next slot
 				// (tail == pos) and claims the lone outstanding wake (wakeState CAS).
 				// Skipping is safe: the consumer detects work from the ring (ready),
 				// not from wakeState.
+				verifYield(106)
 				if q.tail.Load() == pos && q.wakeState.CompareAndSwap(0, 1) {
 					signal(q.wake)
 				}
@@ -79,6 +85,7 @@ func (q *mpscQueue[K, V]) enqueue(cmd writeCommand[K, V]) error {
 			}
 		case dif < 0:
 			// full: slot still holds an unfreed item from the previous lap.
+			verifYield(108)
 			select {
 			case <-q.space:
 			case <-q.closeCh:
@@ -108,21 +115,27 @@ func (q *mpscQueue[K, V]) ready() bool {
 }
 
 func (q *mpscQueue[K, V]) tryDequeue(buf []writeCommand[K, V]) int {
+	verifYield(121)
 	n := 0
 	pos := q.tail.Load()
 	for n < len(buf) {
 		cell := &q.buffer[pos&q.mask]
+		verifYield(122)
 		if cell.seq.Load() != pos+1 {
 			break // not yet published (empty)
 		}
+		verifYield(123)
 		buf[n] = cell.cmd
+		verifYield(124)
 		cell.cmd = writeCommand[K, V]{}  // drop references
 		cell.seq.Store(pos + q.mask + 1) // free the slot for the next lap
 		pos++
+		verifYield(125)
 		q.tail.Store(pos) // publish progress so quiescent() sees it
 		n++
 	}
 	if n > 0 {
+		verifYield(126)
 		signal(q.space) // a producer waiting for room can proceed
 	}
 	return n
